@@ -24,6 +24,9 @@ THEOREMS = [
     "WM.C15.apply_id_sat", "WM.C15.replace_absent", "WM.C15.replace_absent_sat",
     "WM.C15.simplify_sat_partial", "WM.C15.estimate_ge", "WM.C15.estimate_total", "WM.C15.estimate_total_ge",
     "WM.C15.eq_iff", "WM.C15.eq_same_meaning", "WM.C15.dedupe_sat",
+    "WM.C15.dedupe_by_sound", "WM.C15.dedupe_by_sound_of_eq", "WM.C15.dedupe_by_unsound", "WM.C15.dedupe_is_dedupe_by",
+    "WM.C15.nested_parent_normalize_answer_partial", "WM.C15.nested_parent_normalize_idempotent",
+    "WM.C15.nested_boost_answer",
 ]
 _DEFECTS = ("the pinned tree's CompoundQuery.normalize/Not.normalize are not meaning preserving on trees outside "
             "WM.Clean.clean (And drops NullQuery clauses, Not(NullQuery) becomes NullQuery, And drops clauses next to "
@@ -65,8 +68,21 @@ PARTIAL = {
     "WM.C15.estimate_total": "trees without span queries (hypothesis spanFree); NumericRange.estimate_size is a "
                              "placeholder in the model",
     "WM.C15.estimate_total_ge": "as estimate_total",
-    "WM.C15.idempotent": "full for the modelled classes; NestedParent/NestedChildren are not in the model (real-code "
-                         "stream only), span queries are opaque leaves",
+    "WM.C15.idempotent": "full for the modelled classes of WM.Normalize.Q; NestedParent.normalize is idempotent by "
+                         "nested_parent_normalize_idempotent (a nested node whose sub-queries are Q trees); nested "
+                         "nodes as clauses of compounds or below other nodes are real-code only, span queries are "
+                         "opaque leaves",
+    "WM.C15.nested_parent_normalize_answer_partial": "inherits the normalize defects for the two sub-queries "
+                                                     "(hypotheses clean/EOk for parents and for the wrapped query, "
+                                                     "BelowMax); `parents` given as a DocIdSet or Results object "
+                                                     "and nested queries inside nested queries are outside the model; "
+                                                     "NestedChildren's match set is not modelled (its normalize() "
+                                                     "is the identity: nested_boost_answer)",
+    "WM.C15.dedupe_by_sound": "full for the duplicate-elimination loop alone, for every clause class and equality "
+                              "(NestedParent/NestedChildren included); the hypothesis 'clauses that compare equal "
+                              "match the same documents' is checked on real nested queries by stream nested/eq, "
+                              "not proved (their matchers are not modelled); the rest of normalize() on trees with "
+                              "nested nodes stays real-code only",
 }
 RULE = ("random query trees (depth <= 4) over all modelled query classes incl. span queries (opaque leaves with "
         "all constructor arguments), nested same-class compounds, duplicate clauses, overlapping ranges, Null/empty "
@@ -75,7 +91,9 @@ RULE = ("random query trees (depth <= 4) over all modelled query classes incl. s
         "a 'positional' profile with few words and longer documents); pairs (tree, near-duplicate) for the "
         "equality/hash stream; pairs of TermRanges for overlaps/merge called directly; "
         "20 % of the end-to-end trees come from QueryParser.parse(normalize=False); a third "
-        "stream runs NestedParent/NestedChildren trees on grouped indexes; non-trivial = the rewrite changed the "
+        "stream runs NestedParent/NestedChildren trees on three-level grouped indexes (near-duplicate nested clauses "
+        "that differ in one constructor argument, mostly the parent filter; equality pairs; duplicate elimination "
+        "against the Lean loop); non-trivial = the rewrite changed the "
         "tree (correspondence) resp. the rewritten tree differs from the original and the original matches at least "
         "one and not all documents (end-to-end); distinct = distinct (operation, serialized tree[, index])")
 ASSUMPTIONS = [
@@ -106,9 +124,21 @@ ASSUMPTIONS = [
     "them alone, apply-based rewrites must rebuild them identically; the oracle tabulates their match set from "
     "the real search of the leaf; their estimate_size is not modelled; subqueries of generated span queries "
     "contain no Not (Not.apply resets the boost)",
-    "NestedParent/NestedChildren (query/nested.py) are not in the Lean model: a separate real-code stream on "
-    "grouped indexes checks that every rewrite neither raises nor changes the match set nor loses a constructor "
-    "argument, and estimate_size >= count",
+    "NestedParent/NestedChildren (query/nested.py) are structured nodes of a separate small model "
+    "(WM.NormalizeNested: constructor arguments, NestedParent.normalize/with_boost, NestedChildren.normalize, and "
+    "the parent documents NestedParentMatcher returns per segment, incl. its stop when a match has no parent at or "
+    "before it) whose sub-queries are trees of the query model: NestedParent.normalize is compared node for node "
+    "on random sub-query trees, and the Lean reading of NestedParent is the oracle for the real search of the "
+    "query and of its normalize() on grouped multi-segment indexes without deletions.  Nested nodes are not "
+    "constructors of the Lean query type itself (not clauses of modelled compounds): a separate real-code stream on "
+    "three-level grouped indexes (kind g > p > c, parent filters on either level or both) checks that every "
+    "rewrite neither raises nor changes the match set nor loses a constructor argument, and estimate_size >= "
+    "count; trees hold pairs of nested clauses around equal sub-queries that differ in exactly one constructor "
+    "argument (parents, per_parent_limit, score_fn, boost, sub-query) or in none, as clauses of one compound "
+    "and as the operands of &, |, -; two nested queries that compare equal (== or `in` a set) must match the "
+    "same documents (hypothesis of WM.C15.dedupe_by_sound); the duplicate elimination of compounds of "
+    "nested/ConstantScore/Term/Not clauses is compared with WM.NormalizeDedupe.dedupeBy run on the table of the "
+    "real membership tests (which clauses survive, in which order)",
     "for &, |, - the expected answer is set algebra on the two answers, and a case is only judged if the "
     "un-normalized And/Or of the operands follows set algebra itself (nested and span matchers break the matcher "
     "contract in some combinations: property C01/C11); searches that raise inside whoosh/matching or do not "
@@ -141,8 +171,9 @@ MANIFEST = {
                   "(docs_for_query before/after every rewrite on generated multi-segment indexes with deletions, "
                   "Lean `sat` as oracle, failing inputs minimised and classified by the violated clause of "
                   "WM.Clean).",
-    "level_note": "Query classes: every class of whoosh.query is modelled except NestedParent/NestedChildren "
-                  "(real-code stream only) and ColumnQuery; span queries are opaque leaves; copy/pickle are checked "
+    "level_note": "Query classes: every class of whoosh.query is modelled except ColumnQuery; NestedParent/"
+                  "NestedChildren only as top-level nodes over modelled sub-queries (WM.NormalizeNested; inside "
+                  "compounds: real-code stream plus the generic duplicate-elimination theorem dedupe_by_sound); span queries are opaque leaves; copy/pickle are checked "
                   "on real objects only.  Partial theorems: normalize_sat/ops/simplify carry the hypothesis WM.Clean.clean(S) and "
                   "Doc.BelowMax / EOk because the pinned tree (with its test-suite) is not meaning preserving there "
                   "(findings/C15.json); apply_id/replace_absent assume no Not below a Sequence (spans not "
@@ -783,39 +814,137 @@ def _nested_params(x):
     return [(n[0],) + tuple(n[3:]) for n in G.walk(x) if n != "null" and n[0] in ("nestedparent", "nestedchildren")]
 
 
-def _nested_worker(job):
-    seed, nq = job
-    from whoosh import fields, query as Q
+NEST_WORDS = G.ALPHA[:6]
+NEST_TIMEOUT = 1.5    # seconds for one search of a few dozen documents (a hanging matcher combination is counted)
+_EQ_NESTED_SIG = "nested:__eq__:equal-queries-match-different-documents"
+
+
+def _nested_index(groups, segs):
+    """RAM index of three-level document groups (kind g > p > c; g documents carry field v, p documents u,
+    c documents t).  `groups`: one list of document dicts per start_group()/end_group(); `segs`: number of
+    groups per commit(merge=False)."""
+    from whoosh import fields
     from whoosh.analysis import SpaceSeparatedTokenizer
     from whoosh.filedb.filestore import RamStorage
+    schema = fields.Schema(id=fields.STORED, kind=fields.ID,
+                           t=fields.TEXT(analyzer=SpaceSeparatedTokenizer(), phrase=True),
+                           u=fields.TEXT(analyzer=SpaceSeparatedTokenizer(), phrase=True),
+                           v=fields.TEXT(analyzer=SpaceSeparatedTokenizer(), phrase=True))
+    G._IXCOUNT += 1
+    ix = RamStorage().create_index(schema, indexname="c15n%dn%d" % (os.getpid(), G._IXCOUNT))
+    it = iter(groups)
+    for n in segs:
+        w = ix.writer()
+        for _ in range(n):
+            w.start_group()
+            for d in next(it):
+                w.add_document(**dict((str(k), v) for k, v in d.items()))
+            w.end_group()
+        w.commit(merge=False)
+    return ix
+
+
+def _nested_groups(rng):
+    def text():
+        return u" ".join(rng.choice(NEST_WORDS) for _ in range(rng.randint(1, 3)))
+    groups, segs, n = [], [], 0
+    for _ in range(rng.choice([1, 1, 2])):
+        ng = rng.randint(1, 3)
+        segs.append(ng)
+        for _ in range(ng):
+            grp = [{"id": n, "kind": u"g", "v": text()}]
+            n += 1
+            for _ in range(rng.randint(1, 2)):
+                grp.append({"id": n, "kind": u"p", "u": text()})
+                n += 1
+                for _ in range(rng.randint(0, 3)):
+                    grp.append({"id": n, "kind": u"c", "t": text()})
+                    n += 1
+            groups.append(grp)
+    return groups, segs
+
+
+def _nested_rewrite_table(q, q2, b, reader):
+    return [
+        ("normalize", lambda: q.normalize()), ("boost", lambda: q.with_boost(b)),
+        ("replace", lambda: q.replace("t", ABSENT, u"a")), ("accept", lambda: q.accept(lambda x: x)),
+        ("apply", lambda: q.apply(lambda x: x)), ("copy", lambda: copy.deepcopy(q)),
+        ("pickle", lambda: pickle.loads(pickle.dumps(q, 2))), ("simplify", lambda: q.simplify(reader)),
+        ("and", lambda: q & q2), ("or", lambda: q | q2), ("sub", lambda: q - q2)]
+
+
+def _nested_judge(s, name, fn, q, q2, qs, dq, dq2):
+    """one rewrite of a tree with nested nodes on one searcher -> (verdict, signature, expected, observed,
+    rewritten text); verdict: "ok" | "skip" (signature = reason, not judged) | "viol" """
+    try:
+        res = fn()
+        rs = G.q2s(res)
+        obs = set(G.docs_of(s, res, NEST_TIMEOUT))
+    except G.Unserializable:
+        return "skip", "rewritten-unserializable:" + name, None, None, None
+    except G.SearchTimeout:
+        return "skip", "rewritten-search-hangs-in-matcher", None, None, None
+    except Exception as e:  # noqa
+        if _raised_in_matcher(e.__traceback__):
+            return "skip", "rewritten-search-raises-in-matcher:" + _excname(e), None, None, None
+        return "viol", "nested:%s:raises:%s" % (name, _excname(e)), "a query", _excname(e), None
+    finally:
+        _reset_null()
+    exp = dq & dq2 if name == "and" else dq | dq2 if name == "or" else dq - dq2 if name == "sub" else dq
+    if name in ("and", "or", "sub"):
+        try:
+            dcomp = set(G.docs_of(s, _compose_real(name, q, q2), NEST_TIMEOUT))
+        except (Exception, G.SearchTimeout):  # noqa
+            dcomp = None
+        if dcomp != exp:
+            return "skip", "matcher-combination-differs-from-set-algebra(C01)", None, None, None
+    if obs != exp:
+        return "viol", "nested:%s:changes-matching-documents" % name, sorted(exp), sorted(obs), rs
+    if name not in ("and", "or", "sub"):
+        a, c = _nested_params(G.parse1(qs)), _nested_params(G.parse1(rs))
+        if name in ("replace", "accept", "apply", "copy", "pickle"):
+            lost = rs != qs
+        else:
+            lost = len(a) == len(c) and a != c
+        if lost:
+            return "viol", "nested:%s:constructor-argument-lost" % name, qs, rs, rs
+    return "ok", None, sorted(exp), sorted(obs), rs
+
+
+def _nested_eq_judge(s, q, q2):
+    """two nested queries that compare equal (== or membership in a set, which is what the duplicate
+    elimination of CompoundQuery.normalize asks) must match the same documents -> (verdict, expected, observed)"""
+    try:
+        same = bool(q == q2) or (q2 in {q})
+    finally:
+        _reset_null()
+    if not same:
+        return "unequal", None, None
+    try:
+        a, b = G.docs_of(s, q, NEST_TIMEOUT), G.docs_of(s, q2, NEST_TIMEOUT)
+    except (Exception, G.SearchTimeout):  # noqa
+        return "unsearchable", None, None
+    finally:
+        _reset_null()
+    return ("viol" if a != b else "equal-same-documents"), a, b
+
+
+def _nested_worker(job):
+    seed, nq = job
+    from whoosh import query as Q
     from whoosh.query import nested as NS
     rng = random.Random(seed)
     out = {"cases": [], "stats": {}, "div": [], "viol": [], "samples": [], "failing": []}
 
     def stat(k, c=1):
         out["stats"][k] = out["stats"].get(k, 0) + c
-    schema = fields.Schema(id=fields.STORED, kind=fields.ID,
-                           t=fields.TEXT(analyzer=SpaceSeparatedTokenizer(), phrase=True),
-                           u=fields.TEXT(analyzer=SpaceSeparatedTokenizer(), phrase=True))
-    G._IXCOUNT += 1
-    ix = RamStorage().create_index(schema, indexname="c15n%dn%d" % (os.getpid(), G._IXCOUNT))
-    words = G.ALPHA[:6]
-    docs = []
-    nseg = rng.choice([1, 1, 2])
-    for _ in range(nseg):
-        w = ix.writer()
-        for _ in range(rng.randint(1, 4)):
-            w.start_group()
-            d = {"id": len(docs), "kind": u"p", "u": " ".join(rng.choice(words) for _ in range(rng.randint(1, 3)))}
-            docs.append(d)
-            w.add_document(**d)
-            for _ in range(rng.randint(0, 3)):
-                d = {"id": len(docs), "kind": u"c", "t": " ".join(rng.choice(words) for _ in range(rng.randint(1, 3)))}
-                docs.append(d)
-                w.add_document(**d)
-            w.end_group()
-        w.commit(merge=False)
-    parents = Q.Term("kind", u"p")
+    groups, segs = _nested_groups(rng)
+    ndocs = sum(len(g) for g in groups)
+    ix = _nested_index(groups, segs)
+    words = NEST_WORDS
+    # the parent filters: each level of the hierarchy alone, both levels together
+    PARENTS = {"p": lambda: Q.Term("kind", u"p"), "g": lambda: Q.Term("kind", u"g"),
+               "gp": lambda: Q.Or([Q.Term("kind", u"g"), Q.Term("kind", u"p")])}
 
     def simple(fld):
         r = rng.random()
@@ -829,107 +958,324 @@ def _nested_worker(job):
             return Q.Prefix(fld, rng.choice(["a", "b", "c"]))
         return Q.Phrase(fld, [rng.choice(words), rng.choice(words)], slop=rng.randint(1, 2))
 
+    def spec():
+        """constructor arguments of one nested node; the sub-query is kept as text so that a near-duplicate gets
+        an equal but distinct object"""
+        if rng.random() < 0.55:
+            pk = rng.choice(["p", "p", "g", "gp"])
+            fld = "t" if pk != "g" else rng.choice("tu")
+            return {"cls": "parent", "pk": pk, "fld": fld, "child": G.q2s(simple(fld)),
+                    "limit": rng.choice([None, 1, 2]), "fn": rng.choice(["sum", "max"])}
+        pk = rng.choice(["p", "p", "g", "gp"])
+        fld = {"p": "u", "g": "v", "gp": rng.choice("uv")}[pk]
+        return {"cls": "children", "pk": pk, "fld": fld, "child": G.q2s(simple(fld)), "boost": rng.choice(G.BOOSTS)}
+
+    def build(sp):
+        child = G.s2q(G.parse1(sp["child"]))
+        if sp["cls"] == "parent":
+            return NS.NestedParent(PARENTS[sp["pk"]](), child, per_parent_limit=sp["limit"],
+                                   score_fn={"sum": sum, "max": max}[sp["fn"]])
+        return NS.NestedChildren(PARENTS[sp["pk"]](), child, boost=sp["boost"])
+
+    def neardup(sp):
+        """the same node with exactly one constructor argument changed (mostly the parent filter: the same
+        sub-query asked about another level of the hierarchy)"""
+        sp2 = dict(sp)
+        r = rng.random()
+        if r < 0.6:
+            sp2["pk"] = G._other(rng, sp["pk"], ["p", "g", "gp"])
+            what = "parents"
+        elif r < 0.8:
+            if sp["cls"] == "parent":
+                if rng.random() < 0.5:
+                    sp2["limit"] = G._other(rng, sp["limit"], [None, 1, 2])
+                    what = "per_parent_limit"
+                else:
+                    sp2["fn"] = G._other(rng, sp["fn"], ["sum", "max"])
+                    what = "score_fn"
+            else:
+                sp2["boost"] = G._other(rng, sp["boost"], [1.0, 2.0, 0.5])
+                what = "boost"
+        else:
+            for _ in range(5):
+                sp2["child"] = G.q2s(simple(sp["fld"]))
+                if sp2["child"] != sp["child"]:
+                    break
+            what = "subquery"
+        return sp2, what
+
     def nested():
-        if rng.random() < 0.5:
-            return NS.NestedParent(parents, simple("t"), per_parent_limit=rng.choice([None, 1, 2]),
-                                   score_fn=rng.choice([sum, max])), "t"
-        return NS.NestedChildren(parents, simple("u"), boost=rng.choice(G.BOOSTS)), "u"
+        sp = spec()
+        return build(sp), sp["fld"]
 
     def wrapped():
-        x, fld = nested()
-        r = rng.randrange(9)
-        other = Q.Term(rng.choice("tu"), rng.choice(words))
+        """(tree, second operand or None, description)"""
+        sp = spec()
+        x, fld = build(sp), sp["fld"]
+        r = rng.randrange(16)
+        other = Q.Term(rng.choice("tuv"), rng.choice(words))
+        if r >= 9:
+            # two clauses that wrap equal sub-queries and differ in one constructor argument (or in none)
+            if rng.random() < 0.12:
+                sp2, what = dict(sp), "nothing"
+            else:
+                sp2, what = neardup(sp)
+            y = build(sp2)
+            stat("near-duplicate-clauses:differ-in:" + what)
+            if r == 9:
+                return Q.Or([x, y]), None
+            if r == 10:
+                return Q.DisjunctionMax([y, x]), None
+            if r == 11:
+                return Q.Or([other, x, y], boost=rng.choice(G.BOOSTS)), None
+            if r == 12:
+                return Q.Or([Q.Or([x, other]), y]), None
+            if r == 13:
+                return Q.And([x, y]), None
+            if r == 14:
+                return Q.AndMaybe(Q.Or([x, y]), other), None
+            return x, y                              # the operators x | y, x & y, x - y
         if r == 0:
-            return x
+            return x, None
         if r == 1:
-            return Q.Or([x, other], boost=rng.choice(G.BOOSTS))
+            return Q.Or([x, other], boost=rng.choice(G.BOOSTS)), None
         if r == 2:
-            return Q.Or([Q.Every(fld), x])       # field(): the nested query must not be absorbed
+            return Q.Or([Q.Every(fld), x]), None       # field(): the nested query must not be absorbed
         if r == 3:
-            return Q.And([x, Q.Term("kind", rng.choice([u"p", u"c"]))])
+            return Q.And([x, Q.Term("kind", rng.choice([u"p", u"c", u"g"]))]), None
         if r == 4:
-            return Q.Not(x)
+            return Q.Not(x), None
         if r == 5:
-            return Q.AndNot(x, other)
+            return Q.AndNot(x, other), None
         if r == 6:
-            return Q.Or([Q.Or([x, other], boost=2.0), nested()[0]])
+            return Q.Or([Q.Or([x, other], boost=2.0), nested()[0]]), None
         if r == 7:
-            return Q.DisjunctionMax([other, x])
-        return Q.AndMaybe(x, other)
+            return Q.DisjunctionMax([other, x]), None
+        return Q.AndMaybe(x, other), None
+    # correspondence of the duplicate elimination for clause classes outside the Lean query model:
+    # WM.NormalizeDedupe.dedupeBy on clause numbers, with the real membership test as a table
+    reqs, meta = [], []
+    for _ in range(nq):
+        pool = []
+        for _ in range(rng.randint(1, 3)):
+            sp = spec()
+            pool.append(lambda sp=sp: build(sp))
+            for _ in range(rng.randint(0, 2)):
+                sp2 = neardup(sp)[0] if rng.random() < 0.7 else dict(sp)
+                pool.append(lambda sp2=sp2: build(sp2))
+        for _ in range(rng.randint(0, 2)):
+            tq = (rng.choice("tuv"), rng.choice(words[:3]))
+            kind = rng.randrange(3)
+            for bst in [rng.choice([1.0, 2.0]) for _ in range(rng.randint(1, 2))]:
+                if kind == 0:
+                    pool.append(lambda tq=tq, bst=bst: Q.Term(tq[0], tq[1], boost=bst))
+                elif kind == 1:
+                    pool.append(lambda tq=tq, bst=bst: Q.ConstantScoreQuery(Q.Term(tq[0], tq[1]), score=bst))
+                else:
+                    pool.append(lambda tq=tq: Q.Not(Q.Term(tq[0], tq[1])))
+        rng.shuffle(pool)
+        pool = pool[:6]
+        cls = rng.choice([Q.Or, Q.And, Q.DisjunctionMax])
+        try:
+            clauses = [mk() for mk in pool]
+            subs_n = [mk().normalize() for mk in pool]
+            if any(x is Q.NullQuery for x in subs_n):
+                stat("dedupeby:skipped-null-clause")
+                continue
+            pairs = [(i, j) for i in range(len(subs_n)) for j in range(len(subs_n))
+                     if i != j and subs_n[i] in {subs_n[j]}]
+            r = cls(clauses).normalize()
+            texts = [G.q2s(x) for x in subs_n]
+            if isinstance(r, cls):
+                real = [G.q2s(x) for x in r.subqueries]
+            else:
+                # one clause left: the compound is unwrapped, `sub.with_boost(sub.boost * boost)` unless both
+                # boosts are 1 (a later step; the clause is recognised up to that re-boosting)
+                rs1 = G.q2s(r)
+                real = [([t for x, t in zip(subs_n, texts)
+                          if t == rs1 or (getattr(x, "boost", 1.0) != 1.0
+                                          and G.q2s(x.with_boost(x.boost)) == rs1)] + [rs1])[0]]
+            case = {"op": "dedupeby", "q": G.q2s(cls(clauses)), "stream": "nested-dedupe"}
+        except G.Unserializable:
+            stat("dedupeby:unserializable")
+            continue
+        finally:
+            _reset_null()
+        reqs.append("c15 dedupeby %d (%s)" % (len(subs_n), " ".join("(%d %d)" % pr for pr in pairs)))
+        meta.append((case, texts, real, len(pairs)))
+    for (case, texts, real, npairs), ans in zip(meta, Driver().ask(reqs) if reqs else []):
+        try:
+            if not (ans.startswith("(") and ans.endswith(")")):
+                raise ValueError(ans)
+            kept = [int(a) for a in ans[1:-1].split()]
+            model = [texts[i] for i in kept]
+        except Exception:  # noqa
+            model = ans
+        stat("dedupeby:clauses-dropped:%d" % (len(texts) - len(real)))
+        out["cases"].append((("nested", "dedupeby", case["q"], seed), npairs > 0 and len(real) < len(texts)))
+        if model != real:
+            out["div"].append(("CompoundQuery.normalize:duplicate-elimination", case, model, real))
+    # correspondence of NestedParent.normalize with WM.NormalizeNested.NParent.normalize: random model trees
+    # as parent filter and wrapped query (NullQuery and empty compounds included)
+    nreqs, nmeta = [], []
+    for i in range(nq):
+        prof = PROFILES[i % 2]
+        try:
+            pq, cq = G.gen_query(rng, rng.choice([0, 1, 2]), prof), G.gen_query(rng, rng.choice([1, 2, 2, 3]), prof)
+            ps_, cs_ = G.q2s(pq), G.q2s(cq)
+            lim, fn = rng.choice([None, 1, 2]), rng.choice([sum, max])
+            r = NS.NestedParent(pq, cq, per_parent_limit=lim, score_fn=fn).normalize()
+            if r is Q.NullQuery:
+                real = "null"
+            elif type(r) is NS.NestedParent and r.per_parent_limit == lim and r.score_fn is fn:
+                real = "(%s %s)" % (G.q2s(r.parents), G.q2s(r.child))
+            else:
+                real = "lost-a-constructor-argument:" + repr(r)
+        except G.Unserializable:
+            stat("nparentnorm:unserializable")
+            continue
+        except Exception as e:  # noqa
+            real = "raises:" + _excname(e)
+        finally:
+            _reset_null()
+        nreqs.append("c15 nparentnorm %s %s" % (ps_, cs_))
+        nmeta.append(({"op": "nparentnorm", "q": cs_, "q2": ps_, "stream": "nested-normalize"}, real))
+    for (case, real), ans in zip(nmeta, Driver().ask(nreqs) if nreqs else []):
+        stat("nparentnorm:" + ("null" if real == "null" else "changed" if real != "(%s %s)" % (case["q2"], case["q"])
+                               else "unchanged"))
+        out["cases"].append((("nested", "nparentnorm", case["q2"], case["q"]),
+                             real != "(%s %s)" % (case["q2"], case["q"])))
+        if ans != real:
+            out["div"].append(("NestedParent.normalize", case, ans, real))
     with ix.searcher() as s:
         reader = s.reader()
+        # end to end with the Lean reading of NestedParent as oracle (WM.NormalizeNested.parentAnswer on the
+        # segments of this index): the query and its normalize() must return the parent documents of the spec
+        flat = [d for grp in groups for d in grp]
+        dtxt = []
+        for d in flat:
+            toks = [(G.FIELDS["kind"], [d["kind"]])] + [(G.FIELDS[f], d[f].split()) for f in "tuv" if d.get(f)]
+            dtxt.append("(%d %s)" % (d["id"], " ".join("(%d %s)" % (f, " ".join(G.t2s(t) for t in ts))
+                                                      for f, ts in toks)))
+        env = "(env (docs %s) (multi ) (seq ) (opq ))" % " ".join(dtxt)
+        seglens, gi = [], 0
+        for n in segs:
+            seglens.append(sum(len(g) for g in groups[gi:gi + n]))
+            gi += n
+        sreqs, smeta = [], []
         for _ in range(nq):
-            q = wrapped()
-            q2 = rng.choice([Q.Term("kind", u"c"), Q.Term("t", rng.choice(words)), Q.Term("u", rng.choice(words))])
+            pk = rng.choice(["p", "p", "g", "gp"])
+            fld = "t" if pk != "g" else rng.choice("tu")
+            c = simple(fld)
+            v = rng.randrange(7)
+            cq = (c if v == 0 else Q.Or([c, copy.deepcopy(c)]) if v == 1 else Q.Or([c, simple(fld)]) if v == 2
+                  else Q.Or([c], boost=2.0) if v == 3 else Q.Or([c, Q.NullQuery]) if v == 4
+                  else Q.Or([]) if v == 5 else Q.And([Q.Every(), c]))
+            pq = PARENTS[pk]() if rng.random() < 0.7 else Q.Or([PARENTS[pk](), PARENTS[pk]()], boost=2.0)
+            nq_ = NS.NestedParent(pq, cq, per_parent_limit=rng.choice([None, 1, 2]))
+            try:
+                ps_, cs_ = G.q2s(pq), G.q2s(cq)
+                d0 = G.docs_of(s, nq_, NEST_TIMEOUT)
+                d1 = G.docs_of(s, nq_.normalize(), NEST_TIMEOUT)
+            except (Exception, G.SearchTimeout) as e:  # noqa
+                stat("nparentanswer:unsearchable:" + _excname(e))
+                continue
+            finally:
+                _reset_null()
+            sreqs.append("c15 nparentanswer %s (%s) %s %s" % (env, " ".join(map(str, seglens)), ps_, cs_))
+            smeta.append(({"op": "normalize", "q": G.q2s(nq_), "q2": "null", "groups": groups, "segs": segs,
+                           "stream": "nested"}, d0, d1))
+        for (case, d0, d1), ans in zip(smeta, Driver().ask(sreqs) if sreqs else []):
+            try:
+                spec_ = sorted(int(a) for a in ans[1:-1].split()) if ans.startswith("(") else ans
+            except ValueError:
+                spec_ = ans
+            stat("nparentanswer:" + ("empty" if not d0 else "some"))
+            out["cases"].append((("nested", "nparentanswer", case["q"], seed), bool(d0) and len(d0) < ndocs))
+            if spec_ != d0:
+                out["div"].append(("NestedParent.matcher<->WM.NormalizeNested.parentAnswer", case, spec_, d0))
+            elif spec_ != d1:
+                out["viol"].append(("nested:normalize:changes-matching-documents", case, spec_, d1,
+                                    "NestedParent.normalize() returns other parent documents than the Lean "
+                                    "reading of the original query"))
+        # equality of nested queries: a node and its near-duplicate / an equal copy
+        for _ in range(nq):
+            sp = spec()
+            sp2, what = neardup(sp) if rng.random() < 0.85 else (dict(sp), "nothing")
+            a, b_ = build(sp), build(sp2)
+            verdict, exp, obs = _nested_eq_judge(s, a, b_)
+            stat("eq:%s:differ-in:%s" % (verdict, what))
+            as_, bs_ = G.q2s(a), G.q2s(b_)
+            out["cases"].append((("nested", "eq", as_, bs_, seed), what == "parents" and exp != [] and as_ != bs_))
+            if verdict == "viol":
+                out["viol"].append((_EQ_NESTED_SIG, {"op": "eq", "q": as_, "q2": bs_, "groups": groups, "segs": segs,
+                                                     "stream": "nested"}, exp, obs,
+                                    "two nested queries that compare equal (== / membership in a set) match "
+                                    "different documents"))
+        for _ in range(nq):
+            q, q2 = wrapped()
+            if q2 is None:
+                q2 = rng.choice([Q.Term("kind", u"c"), Q.Term("t", rng.choice(words)), Q.Term("u", rng.choice(words))])
+            else:
+                stat("operands-are-near-duplicate-nested-queries")
             qs, q2s_ = G.q2s(q), G.q2s(q2)
             try:
-                dq, dq2 = set(G.docs_of(s, q)), set(G.docs_of(s, q2))
+                dq, dq2 = set(G.docs_of(s, q, NEST_TIMEOUT)), set(G.docs_of(s, q2, NEST_TIMEOUT))
             except (Exception, G.SearchTimeout) as e:  # noqa
                 stat("original-unsearchable:" + _excname(e))
                 continue
             b = rng.choice([2.0, 0.5, 4.0])
-            rewrites = [
-                ("normalize", lambda: q.normalize()), ("boost", lambda: q.with_boost(b)),
-                ("replace", lambda: q.replace("t", ABSENT, u"a")), ("accept", lambda: q.accept(lambda x: x)),
-                ("apply", lambda: q.apply(lambda x: x)), ("copy", lambda: copy.deepcopy(q)),
-                ("pickle", lambda: pickle.loads(pickle.dumps(q, 2))), ("simplify", lambda: q.simplify(reader)),
-                ("and", lambda: q & q2), ("or", lambda: q | q2), ("sub", lambda: q - q2)]
-            for name, fn in rewrites:
-                case = {"op": name, "q": qs, "q2": q2s_, "docs": docs, "stream": "nested"}
-                try:
-                    res = fn()
-                    rs = G.q2s(res)
-                    obs = set(G.docs_of(s, res))
-                except G.Unserializable:
-                    stat("rewritten-unserializable:" + name)
+            for name, fn in _nested_rewrite_table(q, q2, b, reader):
+                case = {"op": name, "q": qs, "q2": q2s_, "groups": groups, "segs": segs, "b": b, "stream": "nested"}
+                verdict, sig, exp, obs, rs = _nested_judge(s, name, fn, q, q2, qs, dq, dq2)
+                if verdict == "skip":
+                    stat(sig)
                     continue
-                except G.SearchTimeout:
-                    stat("rewritten-search-hangs-in-matcher")
-                    continue
-                except Exception as e:  # noqa
-                    if _raised_in_matcher(e.__traceback__):
-                        stat("rewritten-search-raises-in-matcher:" + _excname(e))
+                if verdict == "viol":
+                    desc = {"changes-matching-documents": "docs_for_query differs between the query and its rewrite",
+                            "constructor-argument-lost": "a constructor argument of a nested query did not survive "
+                                                         "the rewrite"}.get(sig.rsplit(":", 1)[-1],
+                                                                            "rewriting a tree with a NestedParent/"
+                                                                            "NestedChildren node raised")
+                    out["viol"].append((sig, dict(case, rewritten=rs) if rs else case, exp, obs, desc))
+                    if sig.endswith(":raises:" + str(obs)):
                         continue
-                    out["viol"].append(("nested:%s:raises:%s" % (name, _excname(e)), case, "a query", _excname(e),
-                                        "rewriting a tree with a NestedParent/NestedChildren node raised"))
-                    continue
-                finally:
-                    _reset_null()
-                exp = dq & dq2 if name == "and" else dq | dq2 if name == "or" else dq - dq2 if name == "sub" else dq
-                if name in ("and", "or", "sub"):
-                    try:
-                        dcomp = set(G.docs_of(s, _compose_real(name, q, q2)))
-                    except (Exception, G.SearchTimeout):  # noqa
-                        dcomp = None
-                    if dcomp != exp:
-                        stat("matcher-combination-differs-from-set-algebra(C01)")
-                        continue
-                out["cases"].append((("nested", name, qs, q2s_, seed), rs != qs and 0 < len(exp) < len(docs)))
+                out["cases"].append((("nested", name, qs, q2s_, seed), rs != qs and 0 < len(exp) < ndocs))
                 stat("nested:" + name)
-                if obs != exp:
-                    out["viol"].append(("nested:%s:changes-matching-documents" % name, dict(case, rewritten=rs),
-                                        sorted(exp), sorted(obs),
-                                        "docs_for_query differs between the query and its rewrite"))
-                if name in ("and", "or", "sub"):
-                    continue
-                a, c = _nested_params(G.parse1(qs)), _nested_params(G.parse1(rs))
-                if name in ("replace", "accept", "apply", "copy", "pickle"):
-                    lost = rs != qs
-                else:
-                    lost = len(a) == len(c) and a != c
-                if lost:
-                    out["viol"].append(("nested:%s:constructor-argument-lost" % name, dict(case, rewritten=rs), qs, rs,
-                                        "a constructor argument of a nested query did not survive the rewrite"))
+                if len(_nested_params(G.parse1(qs))) > len(_nested_params(G.parse1(rs))) and name == "normalize":
+                    stat("normalize-removed-a-nested-clause")
             try:
                 est = q.estimate_size(reader)
                 stat("nested:estimate")
                 if est < len(dq):
-                    out["viol"].append(("nested:estimate_size:below-true-count", {"op": "estimate", "q": qs, "docs": docs,
-                                                                              "stream": "nested"},
+                    out["viol"].append(("nested:estimate_size:below-true-count",
+                                        {"op": "estimate", "q": qs, "groups": groups, "segs": segs, "stream": "nested"},
                                         len(dq), est, "estimate_size() below the number of matching documents"))
             except Exception as e:  # noqa
                 stat("nested:estimate-raises:" + _excname(e))
     return out
+
+
+def _run_nested_record(case):
+    """re-execute one stored case of the nested stream -> (failed, signature, expected, observed)"""
+    op = case["op"]
+    try:
+        q, q2 = G.s2q(G.parse1(case["q"])), G.s2q(G.parse1(case.get("q2", "null")))
+        ix = _nested_index(case["groups"], case["segs"])
+    finally:
+        _reset_null()
+    with ix.searcher() as s:
+        if op == "eq":
+            verdict, exp, obs = _nested_eq_judge(s, q, q2)
+            return verdict == "viol", _EQ_NESTED_SIG, exp, obs
+        if op == "estimate":
+            dq = G.docs_of(s, q, NEST_TIMEOUT)
+            est = q.estimate_size(s.reader())
+            return est < len(dq), "nested:estimate_size:below-true-count", len(dq), est
+        dq, dq2 = set(G.docs_of(s, q, NEST_TIMEOUT)), set(G.docs_of(s, q2, NEST_TIMEOUT))
+        table = dict(_nested_rewrite_table(q, q2, case.get("b", 2.0), s.reader()))
+        verdict, sig, exp, obs, _ = _nested_judge(s, op, table[op], q, q2, case["q"], dq, dq2)
+        return verdict == "viol", sig, exp, obs
 
 
 # ------------------------------------------------------------------------------------------------
@@ -1485,6 +1831,9 @@ def _run_record(case):
     """Re-execute one stored case on the current tree.  Returns (failed, signature-hint, expected,
     observed, small) where small is the case in the form _classify understands."""
     op = case["op"]
+    if case.get("stream") == "nested":
+        failed, sig, exp, obs = _run_nested_record(case)
+        return failed, sig, exp, obs, None
     qx, q2x = G.parse1(case["q"]), G.parse1(case.get("q2", "null"))
     if op == "normalize2":
         try:
